@@ -17,6 +17,3 @@ Check C19_simple_widths : forall first ws missing c, (0 <= first)%Z ->
     get w c = simple_spec (Z.to_N first) ws (match missing with Some d => d | None => 0 end) c.
 Check C19_utf16_rt : forall u, forallb is_scalar u = true -> utf16be_to_string (utf16be_bytes u) = Ok u.
 Check C19_cmap_read : forall t, wf_cmap t -> parse_cmap (render_cmap t) = Ok (cmap_denote t).
-Check C19_write_tokens_standard :
-  (forall c, c < 65536 -> write_cid c = hstr (cid_bytes c)) /\
-  (forall u, wf_ustr u -> write_unicode u = hstr (utf16be_bytes u)).
